@@ -116,8 +116,18 @@ func (d *dbl) Exists(k string) (bool, error) {
 }
 func (d *dbl) SetExpiration(k string, ttl time.Duration) error { return nil }
 func (d *dbl) GetExpiration(k string) (time.Duration, error)   { return 0, nil }
-func (d *dbl) CleanupExpired() error                           { return nil }
-func (d *dbl) Close() error                                    { return nil }
+func (d *dbl) CleanupExpired() error {
+	d.mu.Lock()
+	defer d.mu.Unlock()
+	for k := range d.exp {
+		if !d.liveLocked(k) {
+			delete(d.exp, k)
+			delete(d.val, k)
+		}
+	}
+	return nil
+}
+func (d *dbl) Close() error { return nil }
 
 type dblCAS struct{ *dbl }
 
@@ -262,7 +272,7 @@ func (w *gatedPlain) SetExpiration(k string, ttl time.Duration) error {
 	return w.in.SetExpiration(k, ttl)
 }
 func (w *gatedPlain) GetExpiration(k string) (time.Duration, error) { return w.in.GetExpiration(k) }
-func (w *gatedPlain) CleanupExpired() error                         { return nil }
+func (w *gatedPlain) CleanupExpired() error                         { w.g.enter(); return w.in.CleanupExpired() }
 func (w *gatedPlain) Close() error                                  { return nil }
 
 type gatedCAS struct{ gatedPlain }
@@ -336,8 +346,13 @@ func (w *faultyPlain) SetExpiration(k string, ttl time.Duration) error {
 	return w.in.SetExpiration(k, ttl)
 }
 func (w *faultyPlain) GetExpiration(k string) (time.Duration, error) { return w.in.GetExpiration(k) }
-func (w *faultyPlain) CleanupExpired() error                         { return nil }
-func (w *faultyPlain) Close() error                                  { return nil }
+func (w *faultyPlain) CleanupExpired() error {
+	if w.f.hit() {
+		return errInjected
+	}
+	return w.in.CleanupExpired()
+}
+func (w *faultyPlain) Close() error { return nil }
 
 type faultyCAS struct{ faultyPlain }
 
@@ -520,6 +535,8 @@ func parseCase(s string) (*kase, bool) {
 				th.ops = append(th.ops, op{code: 'o', kind: -1})
 			case "w":
 				th.ops = append(th.ops, op{code: 'w', kind: -1})
+			case "c":
+				th.ops = append(th.ops, op{code: 'c', kind: -1})
 			default:
 				t.e = true
 			}
@@ -540,7 +557,7 @@ func parseCase(s string) (*kase, bool) {
 	for _, th := range k.threads {
 		hasW, hasIDGen := false, false
 		for _, o := range th.ops {
-			if o.code == 'o' || o.code == 'w' {
+			if o.code == 'o' || o.code == 'w' || o.code == 'c' {
 				hasW = hasW || o.code == 'w'
 				continue
 			}
@@ -742,6 +759,23 @@ func (e *env) setup() error {
 			return err
 		}
 	}
+	// free-running cases with GC passes: unrelated live keys make a pass over the map last long
+	// enough for claims to arrive while it is scanning (they are not part of the observation)
+	if k.free && k.store != "dbl" {
+		sweeps := false
+		for _, th := range k.threads {
+			for _, o := range th.ops {
+				sweeps = sweeps || o.code == 'c'
+			}
+		}
+		if sweeps {
+			for i := 0; i < 3000; i++ {
+				if err := e.inner.Set(fmt.Sprintf("verif:filler:%d", i), "x", 0); err != nil {
+					return err
+				}
+			}
+		}
+	}
 	return nil
 }
 
@@ -933,6 +967,22 @@ func (e *env) runThread(th *thread, barrier func()) {
 			} else {
 				own, ownKind = s, o.kind
 				g.ev(fmt.Sprintf("ok.%d.%d.%s", th.tid, o.kind, s))
+			}
+		case 'c':
+			// an expiry GC pass: through the instance's storage object (hybrid storage delegates to its
+			// node-local cache) and, for the multi-node hybrids, directly on the shared claim store
+			err := e.instStore(th.inst).CleanupExpired()
+			if e.k.store == "hyb" || e.k.store == "hyr" {
+				th.pass = true
+				if err2 := e.bottom.CleanupExpired(); err == nil {
+					err = err2
+				}
+				th.pass = false
+			}
+			if err != nil {
+				g.ev(fmt.Sprintf("err.%d", th.tid))
+			} else {
+				g.ev(fmt.Sprintf("swp.%d", th.tid))
 			}
 		case 'r':
 			s := idString(o.kind, o.id)
